@@ -2,7 +2,7 @@
 # usage: run_all.sh [tier] — runs every registered check on /repo's working tree, one after the other; prints one line each
 cd /verif
 T=${1:-quick}
-for id in C01 C02 C03 C04 C05 C06 C07 C08 C09 C10 C11 C12 C13 C14 C16 C17 C18 C19 C20; do
+for id in ${IDS:-C01 C02 C03 C04 C05 C06 C07 C08 C09 C10 C11 C12 C13 C14 C16 C17 C18 C19 C20}; do
   s=$(date +%s)
   ./verif check $id --tier $T > /tmp/runall-$id.log 2>&1; rc=$?
   e=$(date +%s)
